@@ -20,7 +20,7 @@ EXPLANATION = (
     "part placeholder as legacy, and the predicates are monotone in the pattern.  (R4) The legacy bump always takes "
     "lexid's successor of the build id, resets minor/patch as documented and refuses --tag-num."
 )
-LEVEL_NOTE = "Not decided: string ordering of {pycalver} chains (a property of lexid) and 1,000-bump chains. Disagreements of legacy parts the statement does not name are listed as observations only."
+LEVEL_NOTE = "Not decided: string ordering of {pycalver} chains (a property of lexid) and 1,000-bump chains. Sibling parts of the named ones are decided with them; eight deprecated short/padded forms (OUT_OF_SCOPE, one reason each) are observations only."
 
 SCOPE = {"pycalver", "semver", "year", "month", "dom", "doy", "quarter", "build_no", "release", "MAJOR", "MINOR", "PATCH",
          "pep440_pycalver", "pep440_version", "calver", "build", "bid", "BID", "tag", "pep440_tag", "release_tag"}
